@@ -10,9 +10,11 @@ package main
 
 import (
 	"bytes"
+	"compress/zlib"
 	"context"
 	"errors"
 	"fmt"
+	"github.com/pierrec/lz4/v4"
 	"io"
 	"math"
 	"net/http"
@@ -364,14 +366,29 @@ func decOracle(f func([]byte) ([]byte, error), b []byte) (out []byte, ok bool) {
 	return o, err == nil
 }
 
+// The decompression oracles call the libraries directly (never the repository's wrappers in
+// pkg/web/compression.go, which are code under test).
+func libZlib(b []byte) ([]byte, error) {
+	zr, err := zlib.NewReader(bytes.NewReader(b))
+	if err != nil {
+		return nil, err
+	}
+	defer zr.Close()
+	return io.ReadAll(zr)
+}
+
+func libLz4(b []byte) ([]byte, error) {
+	return io.ReadAll(lz4.NewReader(bytes.NewReader(b)))
+}
+
 func oracleCols(route string, body []byte) string {
 	cols := []string{"I " + umOracle(route, body)}
-	if z, ok := decOracle(web.DecompressWithZlib, body); ok {
+	if z, ok := decOracle(libZlib, body); ok {
 		cols = append(cols, "Z T "+umOracle(route, z))
 	} else {
 		cols = append(cols, "Z F F")
 	}
-	if l, ok := decOracle(web.DecompressWithLz4, body); ok {
+	if l, ok := decOracle(libLz4, body); ok {
 		cols = append(cols, "L T "+umOracle(route, l))
 	} else {
 		cols = append(cols, "L F F")
@@ -405,12 +422,16 @@ func genB(r *hx.Rng, st *hx.Stats) string {
 		_ = web.CompressWithLz4(raw, buf, r.Intn(10))
 		body, enc = buf.Bytes(), "lz4"
 	}
-	mut := hx.Pick(r, []string{"valid", "valid", "truncate", "bitflip", "random", "empty", "append", "wrong-enc", "unknown-enc", "no-enc"})
+	mut := hx.Pick(r, []string{"valid", "valid", "truncate", "truncate", "truncate", "bitflip", "random", "empty", "append", "wrong-enc", "unknown-enc", "no-enc"})
 	body = append([]byte(nil), body...)
 	switch mut {
 	case "truncate":
 		if len(body) > 0 {
-			body = body[:r.Intn(len(body))]
+			cut := r.Intn(len(body))
+			if r.Bool() && len(body) > 8 {
+				cut = len(body) - 1 - r.Intn(8) // inside or just before the checksum trailer
+			}
+			body = body[:cut]
 		}
 	case "bitflip":
 		for q := r.Range(1, 3); q > 0 && len(body) > 0; q-- {
